@@ -2,6 +2,7 @@ package checks
 
 import (
 	"fmt"
+	"regexp"
 	"sort"
 	"strings"
 	"time"
@@ -300,6 +301,58 @@ func runC04(tier string) int {
 		r.Add("programs", 1)
 		checkClosure(r, fp)
 	})
+	// The closure clauses hold for whatever the compiler accepts. C20's ill-formed programs (every injection under every
+	// wrapper chain of depth <= 1 and under every root) must be rejected; if one is accepted nevertheless, its output must
+	// still be closed: every label the author wrote defined once, every reference resolved.
+	type illJob struct {
+		root  int
+		chain []int
+	}
+	var ills []illJob
+	for ri := range c20Roots {
+		ills = append(ills, illJob{ri, nil})
+		for wi := range c20Wraps {
+			ills = append(ills, illJob{ri, []int{wi}})
+		}
+	}
+	labelDef := regexp.MustCompile(`(?m)^\s*([A-Za-z_][A-Za-z0-9_]*)(\((global|local)\))?:\s*$`)
+	jumpRef := regexp.MustCompile(`\b(goto|call)\(([A-Za-z_][A-Za-z0-9_]*)\)`)
+	if !r.Parallel(uint64(len(ills)*len(c20Injs)), func(w int, idx uint64) {
+		j, inj := ills[idx/uint64(len(c20Injs))], c20Injs[idx%uint64(len(c20Injs))]
+		src, _, _, ok := c20Build(c20Roots[j.root], j.chain, inj)
+		if !ok {
+			return
+		}
+		fp := &fileProgram{Desc: "C20 program " + inj.name, Src: src, Opts: comp.Opts{Switches: map[string]string{"PV": "SEL"}}, Owners: []string{[]string{"S", "M_ON_LOAD", "M_ON_FRAME_0"}[j.root]},
+			UserLabels: map[string]bool{}, DataLabels: map[string]bool{"M": true, "M_ON_FRAME": true}, External: map[string]bool{}}
+		for _, m := range labelDef.FindAllStringSubmatch(src, -1) {
+			if m[1] != "_" && m[1] != "default" {
+				fp.UserLabels[m[1]] = true
+			}
+		}
+		for _, m := range jumpRef.FindAllStringSubmatch(src, -1) {
+			if !fp.UserLabels[m[2]] {
+				fp.External[m[2]] = true
+			}
+		}
+		for _, opt := range []bool{true, false} {
+			o := fp.Opts
+			o.Optimize = opt
+			res := comp.Compile(src, o)
+			r.Add("c20_programs", 1)
+			if res.Err != nil || res.Panic != "" {
+				r.Add("c20_programs_rejected", 1)
+				continue
+			}
+			r.Add("evaluations", 1)
+			problems, _, _ := closureProblems(res.Out, fp)
+			for _, pr := range problems {
+				r.Report(harness.Violation{Sig: "C04:accepted-ill-formed:" + c04Class(pr), Summary: fmt.Sprintf("%s optimize=%v: the program was accepted and its output is not closed: %s\n  source: %q", fp.Desc, opt, pr, src), Replay: map[string]interface{}{"desc": fp.Desc, "source": src, "optimize": opt, "problem": pr, "emitted_assembly": res.Out}})
+			}
+		}
+	}) {
+		r.NotExhaustive("C20 programs not completed")
+	}
 	mixed := mixedNestingPrograms(tier)
 	if !r.Parallel(uint64(len(mixed)), func(w int, i uint64) {
 		scripts := []*model.Script{mixed[i].Script}
